@@ -397,13 +397,8 @@ def r4_regeneration_source(repo=None):
                     "truncated", line=wr[0].line)
     else:
         r.ok("%s:%s %s" % (m.rel, p.line, q), "the write-mode open is reachable only when os.access says the file does not exist")
-    gl = None
-    for n in ast.walk(fn):
-        if isinstance(n, ast.Assign) and isinstance(n.targets[0], ast.Name) and n.targets[0].id == "rf_file_glob":
-            gl = cfold.Folder(repo).expr("digital_rf_hdf5", n.value)
-    if gl is None:
-        raise AnalysisError("rf_file_glob not found")
     from . import c02
+    gl, data_globs, glob_name = c02.regen_data_glob(repo)
     mm, (rfmt, rnode), _ = c02.reader_rf_format(repo)
     args = rnode.right.elts if isinstance(rnode.right, ast.Tuple) else [rnode.right]
     rb = {i: 3 for i, a in enumerate(args) if isinstance(a, ast.BinOp) and isinstance(a.op, ast.Mod)
@@ -431,11 +426,11 @@ def r4_regeneration_source(repo=None):
             parents[ch] = n
     sub_lists = {n.targets[0].id for n in ast.walk(fn) if isinstance(n, ast.Assign) and isinstance(n.targets[0], ast.Name)
                  and isinstance(n.value, ast.Call) and pyfront.call_name(n.value) == "glob.glob" and "GLOB_SUBDIR" in ast.unparse(n.value)}
-    data_globs = [c for c in ast.walk(fn) if isinstance(c, ast.Call) and pyfront.call_name(c) == "glob.glob" and "rf_file_glob" in ast.unparse(c)]
+    data_globs = [c for c in ast.walk(fn) if any(c is x or norm(ast.unparse(c)) == norm(ast.unparse(x)) for x in data_globs) and isinstance(c, ast.Call)]
     if not sub_lists or not data_globs:
         raise AnalysisError("%s: list of sub-directories / glob for data files not found" % q)
     for c in data_globs:
-        dirs = [x.id for x in ast.walk(c) if isinstance(x, ast.Name) and x.id not in ("rf_file_glob", "glob", "os", "channel_dir")]
+        dirs = [x.id for x in ast.walk(c) if isinstance(x, ast.Name) and x.id not in (glob_name, "glob", "os", "channel_dir")]
         site = "%s:%s %s `%s`" % (m.rel, c.lineno, q, norm(ast.unparse(c))[:70])
         if "GLOB_SUBDIR" in ast.unparse(c):
             r.ok(site, "globs the data files of all sub-directories at once")
